@@ -7,6 +7,7 @@
 (*             direct colours need only come out as some palette colour                       *)
 (*   rt        1 = the string reported by --show-config, supplied again, rendered identically; *)
 (*             0 = differently; 2 = not tried                                                  *)
+(*   pal       the palette entries whose RGB value is exactly that of the (direct) foreground colour asked for            *)
 (*   theme     TRUE iff the text sits in a file of a highlighted language under a syntax theme:  *)
 (*             then a `syntax` foreground is some colour of the theme, otherwise none            *)
 EXTENDS Style, TLC, Json, IOUtils
@@ -14,6 +15,9 @@ Rec == ndJsonDeserialize(IOEnv.TRACE)
 VARIABLES l, failed
 vars == <<l, failed>>
 
+\* (256-colour mode: a direct colour that *is* an entry of the 256-colour palette must come out as that entry - the
+\* harness names the entries with exactly that RGB value in e.pal, <<>> when the colour is not in the palette)
+PalOK(e, want, got) == (Len(want) = 3 /\ ~e.exact /\ e.pal # <<>>) => (Len(got) = 1 /\ \E i \in DOMAIN e.pal : e.pal[i] = got[1])
 ColourOK(e, want, got) == IF want = <<Syntax>> THEN (IF e.theme THEN got # <<>> ELSE got = <<>>)
                           ELSE IF e.exact \/ Len(want) # 3 THEN got = want ELSE Len(got) = 1
 Why(e) ==
@@ -21,6 +25,7 @@ Why(e) ==
   IF e.rejected # ~m.ok THEN (IF e.rejected THEN "valid-string-rejected" ELSE "invalid-string-accepted")
   ELSE IF ~m.ok THEN ""
   ELSE IF ~ColourOK(e, m.fg, e.fg) THEN "foreground"
+  ELSE IF ~PalOK(e, m.fg, e.fg) THEN "palette-colour-not-kept"
   ELSE IF ~ColourOK(e, m.bg, e.bg) THEN "background"
   ELSE IF {e.at[i] : i \in DOMAIN e.at} # m.at THEN "attributes"
   ELSE IF e.rt = 0 THEN "show-config-round-trip"
